@@ -4,7 +4,7 @@ use async_lsp::lsp_types::Url;
 
 use ide::file_system::{FileId, FilePath, FileSet, FileSystem};
 
-#[derive(Debug, Default)]
+#[derive(Debug, Default, Clone)]
 pub struct Vfs {
     file_set: FileSet,
     next_file_id: u32,
